@@ -43,11 +43,20 @@ def gen_script(rnd, tier):
             pycls[c] = type("G%d" % c, (object,), {})
         cb[c] = bs
         L.append("class %d : %s" % (c, " ".join(map(str, bs))))
+    nreal = nc
+    if rnd.random() < 0.35:
+        # a builtin / extension type (cannot carry __implemented__); its declarations are process-wide, so the script
+        # starts by replacing whatever an earlier script left
+        nc += 1
+        L.append("bclass %d :" % nc)
+        L.append("only %d : %s" % (nc, " ".join(map(str, rnd.sample(range(1, n + 1), rnd.randint(0, min(2, n)))))))
     # class declarations first (every shape, several per class, *only* forms repeated) ...
     for _ in range(rnd.randint(0, 6)):
         c = rnd.randint(1, nc)
         xs = rnd.sample(range(1, n + 1), rnd.randint(0 if rnd.random() < 0.2 else 1, min(2, n)))
         kind = rnd.choice(["add", "add d", "only", "only d", "only", "first"])
+        if c > nreal:
+            kind = kind.split()[0]           # decorators return the class; same calls
         if kind == "first":
             xs = xs[:1] or [1]
         if kind.startswith("add") and not xs:
@@ -59,10 +68,13 @@ def gen_script(rnd, tier):
         L.append("rimpl %d :" % c)
         L.append("pk M %d :" % c)
     # ... then class-provided interfaces and instance declarations, pickled while the class declarations are settled
+    nc = nreal
     for c in range(1, nc + 1):
         if rnd.random() < 0.6:
             xs = rnd.sample(range(1, n + 1), rnd.randint(1, min(2, n)))
             L.append("cprov %d : %s" % (c, " ".join(map(str, xs))))
+            if rnd.random() < 0.4:
+                L.append("clookup %d :" % c)
             r = rnd.random()
             if r < 0.3:
                 L.append("calso %d : %d" % (c, rnd.randint(1, n)))
@@ -90,7 +102,7 @@ def gen_script(rnd, tier):
     return L
 
 
-MODEL_OPS = ("reset", "iface", "class", "inst", "add", "only", "first", "dp", "also", "nl", "rimpl", "rprov")
+MODEL_OPS = ("reset", "iface", "class", "bclass", "inst", "add", "only", "first", "dp", "also", "nl", "rimpl", "rprov")
 
 
 class _Null:
@@ -130,7 +142,7 @@ def check(tier):
     scripts = corpus + [gen_script(rnd, tier) for _ in range({"quick": 150, "thorough": 4000}[tier])]
     lines = [l for s in scripts for l in s]
     midx = [i for i, l in enumerate(lines) if l.split()[0] in MODEL_OPS]
-    model = core.run_model("pickle", [lines[i] for i in midx])
+    model = core.run_model("pickle", [lines[i].replace("bclass", "class") for i in midx])
     divs, fails, knowns = [], [], []
     for m in ("c", "py"):
         try:
